@@ -2,7 +2,7 @@ SPECIFICATION Spec
 CONSTANTS
  Alphabet = {0, 1, 128, 255}
  MaxLen = 5
- PieceSizes = {0, 1, 2, 3, 5, 8, 9, 55, 56, 63, 64, 65, 120}
- ShaLens = {0, 1, 54, 55, 56, 57, 63, 64, 65, 119, 120, 128, 130}
+ PieceSizes = {0, 1, 2, 3, 5, 8, 9, 55, 56, 63, 64, 65, 120, 200}
+ ShaLens = {0, 1, 54, 55, 56, 57, 63, 64, 65, 119, 120, 128, 130, 200, 260}
 INVARIANTS FinalIsDefinition RunningCrcIsPrefixCrc ShaSizeCounts
 CHECK_DEADLOCK FALSE
